@@ -29,7 +29,10 @@ COINCIDENT = 1e-6            # two distinct cells closer than this are the same 
 
 RULE = ("default_*: every raster of the listed shape over the listed alphabet (rank = mixed-radix number of the "
         "cell letters, letters ordered 0, T, NaN; a T cell carries the value 1 + its row-major index, unique to the "
-        "cell); config_*: every {0,T} layout x coordinate system x metric x max_distance x target_values; "
+        "cell); config_*: every {0,T} layout x coordinate system x metric x max_distance x target_values (config_HxW: the "
+        "first seven coordinate systems; config_wide_HxW: the wide-cell systems x2_y0.5 and lonlat_arctic_wide, with the "
+        "very large finite max_distance 'huge' next to the unbounded one; config_huge_HxW: the first seven systems x "
+        "metric under max_distance 'huge', default targets); "
         "conf_*: all {0,T} layouts of 2x3 x metric and a fixed slice of 3x3 layouts x metric x configuration variants, "
         "run compiled (jit) and interpreted (twin space, same cases); sparse_HxW_leK: every placement of <= K targets; "
         "precision_HxW[_leK]: every layout over {0, a, b} (all 729 of 2x3; 3x3 with <= K non-background cells: K = 2 quick, 5 thorough) x value pair (a, b) that float32 cannot tell apart or cannot hold (PRECISION: 0.3 vs float32(0.3) and 2^24+1 vs "
@@ -58,6 +61,13 @@ ASSUMPTIONS = [
     "bounded max_distance: a cell whose D* is within rtol of max_distance may be NaN or not (tie), unless D* == "
     "max_distance exactly in IEEE arithmetic (then it is within); the statement only requires NaN where no target is "
     "within max_distance, a NaN at a cell with D* <= max_distance is reported by the exactness relation",
+    "max_distance 'huge' (1e8, finite, beyond every distance on every grid; config_wide_* and config_huge_*) is a bounded "
+    "max_distance for the judge: 'no NaN with unbounded max_distance' is asserted on the 'inf' cases, a NaN under 'huge' is a "
+    "cell with a target within max_distance that is not exact and is reported by the exactness relation (prox-inexact)",
+    "lonlat_arctic_wide (lat 70..60 step 5, lon 0, 30, .. : cells ~3x wider than tall in metres) under GREAT_CIRCLE: the "
+    "diagonal neighbour towards the pole is nearer than the neighbour along the parallel, which no planar metric allows; the "
+    "sweep's hand-over from grid neighbours then over-estimates on 14 of the 512 3x3 layouts (same class as the recorded "
+    "4x4 / 3x4 GDAL-sweep findings; keys in c06_known_inexact_3x3_arctic_great_circle.json) - asserted, not exempted",
     "exactness p == D* is asserted on every exhaustively enumerated grid (<= 16 cells; the quick tier runs the <= 4-target "
     "layouts of the 4x4 grid that the thorough tier enumerates completely) and for single-target layouts; on "
     "the other sparse_* grids (6x6, 2x8, 8x2: not exhaustive layout spaces) it is only counted for layouts with >= 2 targets",
@@ -87,10 +97,19 @@ SYSTEMS = {
     # touch the +90 / -180 and the -90 / +180 domain edges (the pole row is one point on the sphere)
     "lonlat_nw_edge": lambda h, w: (90.0 - 60.0 * np.arange(h, dtype=float), -180.0 + 60.0 * np.arange(w, dtype=float)),
     "lonlat_se_edge": lambda h, w: (-90.0 + 60.0 * np.arange(h, dtype=float)[::-1], 180.0 - 60.0 * np.arange(w, dtype=float)[::-1]),
+    # cells WIDER than tall (x0.5_y2desc, lonlat_mid have them taller than wide, the unit systems square)
+    "x2_y0.5": lambda h, w: (0.5 * np.arange(h, dtype=float), 2.0 * np.arange(w, dtype=float)),
+    # high-latitude lon/lat grid, wider than tall (3x3: lon 0..60, lat 70..60): under GREAT_CIRCLE the edge along the
+    # lower latitude is LONGER than the corner-to-corner arc, which is therefore no upper bound of the distances
+    "lonlat_arctic_wide": lambda h, w: (70.0 - 5.0 * np.arange(h, dtype=float), 30.0 * np.arange(w, dtype=float)),
 }
 SYS_NAMES = list(SYSTEMS)
+SYS_BASE = SYS_NAMES[:7]
+SYS_WIDE = SYS_NAMES[7:]
 METRICS = ["EUCLIDEAN", "MANHATTAN", "GREAT_CIRCLE"]
 MAXD = ["inf", "1u", "1.5u", "2.3u", "diag"]
+MAXD_WIDE = ["inf", "huge", "1u", "1.5u", "2.3u", "diag"]
+HUGE = 1e8                    # 'huge': finite, beyond every distance of every grid (half the Earth's circumference is 2.0e7 m)
 TVS = [("default", None), ("[2]", [2]), ("[3,1]", [3, 1]), ("[0]", [0])]
 
 
@@ -98,6 +117,8 @@ def max_distance_value(name, ys, xs, metric):
     """Numeric max_distance of a named option.  u = the metric's length of sqrt(sx*sy) coordinate units."""
     if name == "inf":
         return float("inf")
+    if name == "huge":
+        return HUGE
     if name == "diag":
         return float(orc.distance(metric, xs[0], ys[0], xs[-1], ys[-1]))
     sx, sy = abs(float(xs[1] - xs[0])), abs(float(ys[1] - ys[0]))
@@ -395,12 +416,13 @@ def config_case(shape, letters, sysname, metric, maxd_name, tvi):
 class ConfigSpace(ProxSpace):
     """Every {0,T} layout x coordinate system x metric x max_distance x target_values (configuration is the major index)."""
 
-    def __init__(self, shape, ntv):
+    def __init__(self, shape, ntv, tag="config", systems=None, maxds=None):
         self.shape = shape
+        self.systems, self.maxds = list(systems or SYS_BASE), list(maxds or MAXD)
         self.n = 2 ** (shape[0] * shape[1])
-        self.radices = [len(SYS_NAMES), len(METRICS), len(MAXD), ntv]
+        self.radices = [len(self.systems), len(METRICS), len(self.maxds), ntv]
         self.ncfg = int(np.prod(self.radices))
-        self.name = "config_%dx%d" % shape
+        self.name = "%s_%dx%d" % (tag, shape[0], shape[1])
         self.size = self.n * self.ncfg
         self.weight = shape[0] * shape[1]
 
@@ -408,7 +430,7 @@ class ConfigSpace(ProxSpace):
         cfg, lay = divmod(rank, self.n)
         si, mi, xi, ti = unrank_product(cfg, self.radices)
         letters = unrank_product(lay, [2] * (self.shape[0] * self.shape[1]))
-        return config_case(self.shape, letters, SYS_NAMES[si], METRICS[mi], MAXD[xi], ti)
+        return config_case(self.shape, letters, self.systems[si], METRICS[mi], self.maxds[xi], ti)
 
 
 class Conf2x3Space(ProxSpace):
@@ -538,18 +560,26 @@ class PrecisionConfSpace(ProxSpace):
 
 TIERS = {
     "quick": dict(thin=[(1, 1), (1, 2), (2, 1), (1, 5), (5, 1), (2, 2)], default=[((3, 3), 3)], dtypes=(3, 3),
-                  config=((3, 3), 3), sparse=[((4, 4), 4, True), ((6, 6), 2, False), ((2, 8), 3, False), ((8, 2), 3, False)],
+                  config=((3, 3), 3), config_wide=((3, 3), 2), config_huge=(3, 3), sparse=[((4, 4), 4, True), ((6, 6), 2, False), ((2, 8), 3, False), ((8, 2), 3, False)],
                   slice=(4, 2), precision=[((2, 3), 6), ((3, 3), 2)], precision_conf=1),
     "thorough": dict(thin=[(1, 1), (1, 2), (2, 1), (1, 5), (5, 1), (2, 2), (1, 7), (7, 1), (2, 3), (3, 2)],
                      default=[((3, 3), 3), ((2, 5), 3), ((3, 4), 3), ((4, 4), 2)], dtypes=(3, 3),
-                     config=((3, 4), 4), sparse=[((6, 6), 3, False), ((2, 8), 4, False), ((8, 2), 4, False)], slice=(32, 4),
+                     config=((3, 4), 4), config_wide=((3, 4), 3), config_huge=(3, 4), sparse=[((6, 6), 3, False), ((2, 8), 4, False), ((8, 2), 4, False)], slice=(32, 4),
                      precision=[((2, 3), 6), ((3, 3), 5)], precision_conf=4),
 }
 BOUNDS = {t: {"default_configuration": [dict(shape=list(s), letters=["0", "T", "NaN"][:n]) for s, n in b["default"]],
               "thin_shapes_3letters": [list(s) for s in b["thin"]],
               "dtype_layouts_0T": dict(shape=list(b["dtypes"]), dtypes=DtypeSpace.DTYPES, coords="int64, y descending"),
-              "configuration_product_0T": dict(shape=list(b["config"][0]), coordinate_systems=SYS_NAMES, metrics=METRICS,
+              "configuration_product_0T": dict(shape=list(b["config"][0]), coordinate_systems=SYS_BASE, metrics=METRICS,
                                                max_distance=MAXD, target_values=[n for n, _ in TVS[:b["config"][1]]]),
+              "configuration_product_wide_cells_0T": dict(shape=list(b["config_wide"][0]), coordinate_systems=SYS_WIDE,
+                                                          metrics=METRICS, max_distance=MAXD_WIDE,
+                                                          target_values=[n for n, _ in TVS[:b["config_wide"][1]]]),
+              "configuration_product_huge_max_distance_0T": dict(shape=list(b["config_huge"]), coordinate_systems=SYS_BASE,
+                                                                 metrics=METRICS, max_distance=["huge"],
+                                                                 target_values=["default"]),
+              "max_distance_options": {"inf": "argument omitted", "huge": HUGE, "Nu": "N x the metric's length of "
+                                       "sqrt(sx*sy) coordinate units", "diag": "first-to-last-cell distance in the metric"},
               "sparse_0T": [dict(shape=list(sh), max_targets=k, exactness_asserted="all layouts" if ex else "1 target")
                             for sh, k, ex in b["sparse"]],
               "jit_conformance": dict(all_layouts="2x3: all 64 layouts x EUCLIDEAN; MANHATTAN and GREAT_CIRCLE on all (interpreted, thorough) or every 4th layout (compiled, quick)", slice_3x3=dict(layouts=b["slice"][0], variants=b["slice"][1],
@@ -568,6 +598,8 @@ def build(tier):
     spaces += [DefaultSpace(s, n) for s, n in b["default"]]
     spaces.append(DtypeSpace(b["dtypes"]))
     spaces.append(ConfigSpace(*b["config"]))
+    spaces.append(ConfigSpace(*b["config_wide"], tag="config_wide", systems=SYS_WIDE, maxds=MAXD_WIDE))
+    spaces.append(ConfigSpace(b["config_huge"], 1, tag="config_huge", systems=SYS_BASE, maxds=["huge"]))
     spaces += [SparseSpace(*sp) for sp in b["sparse"]]
     spaces += [PrecisionSpace(*ps) for ps in b["precision"]]
     for mode in ("jit", "interp"):
